@@ -267,6 +267,38 @@ def rule_dot_subroutines(ctx, rep):
                 rep.check(bool(ok), rule, f"{name}/{sname}: box wiring", where, "box not wired callsub -> box -> return point", "wired")
 
 
+SUB_NAMES = ("#pragma version 6\ncallsub bal.check\ncallsub bal_check\ncallsub bal-check\ncallsub BAL_check\nint 1\nreturn\n"
+             "bal.check:\nint 1\npop\nretsub\nbal_check:\nint 2\nbnz t\nint 3\npop\nt:\nretsub\nbal-check:\nint 4\npop\nretsub\nBAL_check:\nint 5\npop\nint 6\npop\nretsub\n")
+
+
+def rule_dot_subroutine_files(ctx, rep):
+    rule = "T-DOT(subroutine-cfg files)"
+    rep.rule(rule, "`subroutine-cfg` export as files: one file for the shortened main graph and one file per subroutine - also for subroutines "
+                   "whose labels differ only in punctuation or letter case - each holding the blocks of its own subroutine")
+    w = _capture(ctx)
+    f = w.func(OUT, "all_subroutines_to_dot")
+    where = f"{ctx.path(OUT)}:{f.node.lineno}"
+    import pathlib
+    progs = {"labels that differ in punctuation": SUB_NAMES, "nested subroutines": programs()["nested subroutines"]}
+    for name, src in progs.items():
+        teal = w.call(w.func(PT, "parse_teal"), src, "c")
+        ref = reference_cfg(ctx, src)
+        w.files, w.dirs, w.stdout = {}, {"out"}, []
+        try:
+            w.call(f, teal, pathlib.PurePosixPath("out"))
+        except PyRaise as e:
+            rep.violation(rule, f"{name}: runs", where, f"RAISES {e.exc} {e.where}", "dot files")
+            continue
+        finally:
+            w.stdout = None
+        got = sorted(sorted(int(x) for x in NODE_RE.findall(v)) for k, v in w.files.items() if k.endswith(".dot"))
+        want = sorted(info["blocks"] for info in ref["subs"].values())
+        rep.require(len(want) >= 3, f"{rule}: reference lists {len(want)} subroutines for '{name}'")
+        rep.check(got == want, rule, f"{name}: one file per subroutine, holding its blocks", where, {"files": sorted(w.files), "blocks": got}, {"files": len(want), "blocks": want},
+                  why="a subroutine's graph is missing from the export (two subroutines written to one file name?)",
+                  sample={"program": name, "subroutines": sorted(ref["subs"]), "files": sorted(w.files)})
+
+
 def rule_path_highlight(ctx, rep):
     rule = "T-DOT(path)"
     rep.rule(rule, "the DOT file written for a reported path marks exactly that path's blocks (by block id), one file per path")
@@ -519,6 +551,28 @@ def rule_main_detect(ctx, rep):
                   {"count": got["result"][0]["count"], "paths": gp}, {"count": len(want), "paths": want},
                   why="the report does not list exactly the paths that the filter leaves", sample={"filter": pat, "paths left": want})
     rep.count("filter patterns evaluated through main()", n)
+    # the error side of the envelope, reached through main(): an error that occurs while the contract is loaded (before there is a contract
+    # to name the output directory after) is reported in the requested format - `success` false with the message - not lost in an internal error
+    for fields, what in (({"json": "-"}, "JSON"), ({"json": None}, "text")):
+        f = {"subcommand": "detect", "contracts": ["missing.teal"], "detectors_to_run": "rekey-to"}
+        f.update(fields)
+        err, out = _run_main(ctx, w, f, {})
+        text = "\n".join(out)
+        if what == "JSON":
+            try:
+                js = json.loads(text[text.find("{"):]) if "{" in text else None
+            except ValueError:
+                js = None
+            got = err or (js if js is None else {k: js.get(k) for k in ("success", "error", "result")})
+            ok = err is None and isinstance(js, dict) and js.get("success") is False and isinstance(js.get("error"), str) and js["error"] != "" and js.get("result") == []
+            rep.check(ok, rule, "detect --json - on a contract file that does not exist: success=false with the error", where, got,
+                      {"success": False, "error": "<message>", "result": []},
+                      why="an error occurred, so the JSON report must say success=false; the error path of main() must not fail itself",
+                      sample={"command": "detect --json - --contracts missing.teal"})
+        else:
+            ok = err is None and any("Error" in l and "missing.teal" in l for l in out)
+            rep.check(ok, rule, "detect on a contract file that does not exist: the error is printed", where, err or out[-2:], "a line 'Error: ...missing.teal...'",
+                      why="the error path of main() must report the error, not fail itself or stay silent")
 
 
 # ---------------------------------------------------------------------------------------------- history independence of whole runs (C14)
